@@ -32,7 +32,7 @@ BOUND = {
     "quick": "19 linters x their languages x 8 forms x 6 spellings x up to 4 placements (finite matrix, taken in full)",
     "thorough": "same matrix plus two directives per file (ordered pairs of forms on two violations)",
 }
-MIN_NONTRIVIAL = {"quick": 1500, "thorough": 2500}
+MIN_NONTRIVIAL = {"quick": 1500, "thorough": 1800}
 
 PROBE = {
     "python": "\n\ndef extra_probe_fn():\n    print(98765)\n",
@@ -320,6 +320,18 @@ def run_item(item) -> Acc:
                 nf = dict(files)
                 nf[target] = "\n".join(new_lines)
                 expect_and_check(form, spelling, placement, nf, cfg, shift, scope, names_me and placement != "no-violation-line", n=n)
+    # thorough: two directives in one file, every ordered pair of line-scoped forms on two violations
+    if item.get("pairs") and v2 and not path_based and name not in ("file-header", "dry"):
+        for f1 in ("same-line", "next-line", "block"):
+            for f2 in ("same-line", "next-line", "block"):
+                for sp_name in ("full", "prefix"):
+                    s1 = _spelled(sp_name, rule_at.get(v1, rule_at[v1]), prefix, aliases)
+                    s2 = _spelled(sp_name, rule_at.get(v2, rule_at[v1]), prefix, aliases)
+                    L2, shift2, scope2 = _insert(lines, f2, v2, s2, cm)
+                    L3, shift1, scope1 = _insert(L2, f1, v1, s1, cm)
+                    nf = dict(files)
+                    nf[target] = "\n".join(L3)
+                    expect_and_check(f"{f1}+{f2}", sp_name, "v1+v2", nf, cfg, (lambda x, a=shift1, b=shift2: a(b(x))), (lambda x, a=scope1, b=scope2: a(x) or b(x)), True, n=v1)
     # aggregate: one signature per (form, placement, mode) with the set of failing spellings
     for (form, placement, mode), lst in fail_map.items():
         sp = sorted({s for s, _c, _w, _g in lst})
